@@ -319,3 +319,36 @@ Proof.
   intros Hs Hb Hle. rewrite next_list_exact in Hle by lia.
   apply list_lt_size_lt; lia.
 Qed.
+
+(* ------------------------------------------------------------------ pairs without the class bound *)
+
+Definition wpair (mc sli : Z) : Prop := 0 <= mc /\ 0 <= sli /\ sli < (if mc =? 0 then 4 else 32).
+
+Lemma valid_wpair mc sli : valid_pair mc sli -> wpair mc sli.
+Proof. unfold valid_pair, wpair. tauto. Qed.
+
+Lemma class_wpair s : 1 <= s -> wpair (size_to_class s) (size_to_sli s (size_to_class s)).
+Proof.
+  intros H. unfold wpair. destruct (Z_le_gt_dec s 256) as [Hs|Hs].
+  - rewrite size_to_class_small by lia. rewrite size_to_sli_small by lia.
+    change (0 =? 0) with true. cbv iota. pose proof (small_div_bounds s ltac:(lia)). lia.
+  - rewrite size_to_class_big by lia. rewrite size_to_sli_big by lia.
+    pose proof (log2_ge_8 s ltac:(lia)). pose proof (q_bounds s ltac:(lia)).
+    destruct (Z.eqb_spec (Z.log2 s - 7) 0); lia.
+Qed.
+
+Theorem list_index_lex_w mc1 s1 mc2 s2 :
+  wpair mc1 s1 -> wpair mc2 s2 ->
+  (list_index mc1 s1 <= list_index mc2 s2 <-> mc1 < mc2 \/ (mc1 = mc2 /\ s1 <= s2)).
+Proof.
+  unfold wpair, list_index. intros (A1 & B1 & C1) (A2 & B2 & C2).
+  destruct (Z.eqb_spec mc1 0); destruct (Z.eqb_spec mc2 0); lia.
+Qed.
+
+Lemma list_index_lt_w mc1 s1 mc2 s2 :
+  wpair mc1 s1 -> wpair mc2 s2 ->
+  (list_index mc1 s1 < list_index mc2 s2 <-> mc1 < mc2 \/ (mc1 = mc2 /\ s1 < s2)).
+Proof.
+  unfold wpair, list_index. intros (A1 & B1 & C1) (A2 & B2 & C2).
+  destruct (Z.eqb_spec mc1 0); destruct (Z.eqb_spec mc2 0); lia.
+Qed.
